@@ -12,10 +12,13 @@ package main
 //	    => L=<digest|clear|empty|other>:<tokInFrame>;P=…;W=…
 //	raw force=<0|1> b=<n>                    raw TCP peer against a real frps (tcpMux off): byte b + rest of a Login frame
 //	    => resp=<type byte|none|timeout>
-//	cert force=<0|1> sca=<0|1> scert=<0|1> tls=<0|1> custom=<0|1> cca=<0|1|2> sn=<0|1|2> ccert=<0|1|2>
-//	    real client.NewConnector + Login against a real frps => up=<0|1>
-//	wire tls=<0|1> custom=<0|1> enc=<0|1> venc=<0|1> mux=<0|1> ws=<0|1> tok=<0|1>
-//	    real frps + real frpc (tcp, stcp+visitor, http proxies) through a RECORDING RELAY
+//	cert force=<0|1> sca=<0|1> scert=<0|1> tls=<0|1> custom=<0|1> cca=<0|1|2> sn=<0|1|2> ccert=<0|1|2> [proto=<tcp|kcp|ws|wss|quic>] [tok=<0|1>]
+//	    real client.NewConnector over that control transport + Login (tok=0: with a wrong key) against a real frps
+//	    that listens on tcp (muxed: plain / tls / websocket), kcp and quic
+//	    => up=1 | up=0 (no frame came back) | up=0:loginerr (frps read the Login and answered with an error)
+//	wire tls=<0|1> custom=<0|1> enc=<0|1> venc=<0|1> mux=<0|1> ws=<0|1> tok=<0|1> [q=<0|1>]
+//	    real frps + real frpc (tcp, stcp+visitor, http proxies) through a RECORDING RELAY (q=1: protocol quic through
+//	    a recording UDP relay in front of the quic port; fb=192 stands for "QUIC long-header Initial packet")
 //	    => up=<0|1>;fb=<first byte of the first connection>;tok=<0|1>;sk=..;pwd=..;huser=..;user=..;pay=..;vpay=..;upay=..;dec=<0|1|na>
 
 import (
@@ -103,12 +106,34 @@ func wireGen(rng *rand.Rand, n int, emit func(string)) {
 			emit(fmt.Sprintf("raw force=%d b=%d", f, b))
 		}
 	}
-	// certificate matrix (complete lattice)
-	for s := 0; s < 8; s++ {
-		for c := 0; c < 108; c++ {
-			emit(fmt.Sprintf("cert force=%d sca=%d scert=%d tls=%d custom=%d cca=%d sn=%d ccert=%d",
-				s&1, (s>>1)&1, (s>>2)&1, c%2, (c/2)%2, (c/4)%3, (c/12)%3, (c/36)%3))
+	// certificate matrix: the complete lattice (8 server x 108 client configurations) over every control transport
+	// that carries it in-band — tcp, websocket, quic —, each case with the right key, a generated third of them
+	// also with a wrong key (a reply of any kind shows that the Login was interpreted)
+	certOp := func(proto string, s, c, tok int) string {
+		return fmt.Sprintf("cert force=%d sca=%d scert=%d tls=%d custom=%d cca=%d sn=%d ccert=%d proto=%s tok=%d",
+			s&1, (s>>1)&1, (s>>2)&1, c%2, (c/2)%2, (c/4)%3, (c/12)%3, (c/36)%3, proto, tok)
+	}
+	for _, proto := range []string{"tcp", "ws", "quic"} {
+		for s := 0; s < 8; s++ {
+			for c := 0; c < 108; c++ {
+				emit(certOp(proto, s, c, 1))
+				if rng.Intn(3) == 0 {
+					emit(certOp(proto, s, c, 0))
+				}
+			}
 		}
+	}
+	// wss (frps does not terminate it: never a session) and kcp (no close signalling: a refusal is a
+	// time-out of the peer, so only a few cases, mostly TLS ones) — generated samples of the same lattice
+	for i := 0; i < 48; i++ {
+		emit(certOp("wss", rng.Intn(8), rng.Intn(108), rng.Intn(2)))
+	}
+	for i := 0; i < 6; i++ {
+		c := rng.Intn(108)
+		if i >= 2 {
+			c |= 1 // tls=1
+		}
+		emit(certOp("kcp", rng.Intn(8), c, wireBit(rng.Intn(4) != 0)))
 	}
 	// recorded wire: tls x custom x enc x mux, token set; plus the empty-token corner
 	for i := 0; i < 16; i++ {
@@ -126,6 +151,10 @@ func wireGen(rng *rand.Rand, n int, emit func(string)) {
 	emit("wire tls=1 custom=1 enc=0 venc=0 mux=0 ws=1 tok=1")
 	emit("wire tls=0 custom=0 enc=0 venc=0 mux=1 ws=1 tok=1")
 	emit("wire tls=0 custom=0 enc=1 venc=1 mux=0 ws=1 tok=1")
+	// quic transport: TLS 1.3 is part of QUIC whatever transport.tls.enable says
+	emit("wire tls=1 custom=0 enc=0 venc=0 mux=1 ws=0 tok=1 q=1")
+	emit("wire tls=0 custom=0 enc=0 venc=0 mux=1 ws=0 tok=1 q=1")
+	emit("wire tls=0 custom=0 enc=1 venc=0 mux=0 ws=0 tok=0 q=1")
 }
 
 func wireRandStr(rng *rand.Rand, n int, alpha string) string {
@@ -416,9 +445,11 @@ func wireAuth(kv map[string]string) string {
 const wireCertToken = "Zc05-cert-matrix-token"
 
 type wireSrv struct {
-	svr  *server.Service
-	port int
-	stop context.CancelFunc
+	svr      *server.Service
+	port     int
+	kcpPort  int
+	quicPort int
+	stop     context.CancelFunc
 }
 
 var wireSrvs = map[string]*wireSrv{}
@@ -430,6 +461,8 @@ func wireStartServer(force, ca, cert, mux bool, token string, vhostHTTP int, sco
 		scfg := &v1.ServerConfig{}
 		scfg.BindAddr = "127.0.0.1"
 		scfg.BindPort = freeTCPPort()
+		scfg.KCPBindPort = freeUDPPort()
+		scfg.QUICBindPort = freeUDPPort()
 		scfg.ProxyBindAddr = "127.0.0.1"
 		scfg.Auth.Token = token
 		scfg.Auth.AdditionalScopes = scopes
@@ -450,7 +483,7 @@ func wireStartServer(force, ca, cert, mux bool, token string, vhostHTTP int, sco
 		}
 		ctx, cancel := context.WithCancel(context.Background())
 		go svr.Run(ctx)
-		return &wireSrv{svr: svr, port: scfg.BindPort, stop: cancel}
+		return &wireSrv{svr: svr, port: scfg.BindPort, kcpPort: scfg.KCPBindPort, quicPort: scfg.QUICBindPort, stop: cancel}
 	}
 	panic(fmt.Sprint("frps did not start: ", lastErr))
 }
@@ -537,6 +570,25 @@ func wireCert(kv map[string]string) string {
 	case "2":
 		ccfg.Transport.TLS.CertFile, ccfg.Transport.TLS.KeyFile = pki.cli2Cert, pki.cli2Key
 	}
+	wait := 8 * time.Second
+	switch kv["proto"] {
+	case "", "tcp":
+	case "ws":
+		ccfg.Transport.Protocol = "websocket"
+	case "wss":
+		ccfg.Transport.Protocol = "wss"
+	case "kcp":
+		// kcp has no close signalling: a connection frps refuses and closes just stays silent
+		ccfg.Transport.Protocol = "kcp"
+		ccfg.ServerPort = s.kcpPort
+		ccfg.Transport.DialServerTimeout = 3
+		wait = 2 * time.Second
+	case "quic":
+		ccfg.Transport.Protocol = "quic"
+		ccfg.ServerPort = s.quicPort
+	default:
+		return "badproto"
+	}
 	ccfg.Complete()
 	ctx, cancel := context.WithCancel(context.Background())
 	defer cancel()
@@ -551,14 +603,21 @@ func wireCert(kv map[string]string) string {
 	}
 	defer conn.Close()
 	l := &msg.Login{Version: "0.61.0", Timestamp: time.Now().Unix()}
-	_ = auth.NewTokenAuth(nil, wireCertToken).SetLogin(l)
-	_ = conn.SetDeadline(time.Now().Add(8 * time.Second))
+	key := wireCertToken
+	if kv["tok"] == "0" {
+		key = "Zc05-not-the-token"
+	}
+	_ = auth.NewTokenAuth(nil, key).SetLogin(l)
+	_ = conn.SetDeadline(time.Now().Add(wait))
 	if err := msg.WriteMsg(conn, l); err != nil {
 		return "up=0"
 	}
 	var resp msg.LoginResp
 	if err := msg.ReadMsgInto(conn, &resp); err != nil {
 		if ne, ok := err.(net.Error); ok && ne.Timeout() {
+			if kv["proto"] == "kcp" {
+				return "up=0"
+			}
 			return "up=timeout"
 		}
 		return "up=0"
@@ -580,6 +639,78 @@ type wireRelay struct {
 	mu      sync.Mutex
 	streams []*wireStream
 	conns   []net.Conn
+	// datagram side (quic): one flow per client address, datagrams appended in arrival order
+	udp      *net.UDPConn
+	flows    map[string]*net.UDPConn
+	flowKeys []string
+	flowBase []int
+}
+
+// recording UDP relay: every datagram a client sends to the relay port goes to `target` from a socket
+// of its own, every answer goes back; all datagrams are recorded per direction
+func (r *wireRelay) serveUDP(target *net.UDPAddr) int {
+	u, err := net.ListenUDP("udp", &net.UDPAddr{IP: net.IPv4(127, 0, 0, 1)})
+	if err != nil {
+		panic(err)
+	}
+	r.udp = u
+	r.flows = map[string]*net.UDPConn{}
+	go func() {
+		buf := make([]byte, 64<<10)
+		for {
+			n, from, err := u.ReadFromUDP(buf)
+			if err != nil {
+				return
+			}
+			r.mu.Lock()
+			up, ok := r.flows[from.String()]
+			var st *wireStream
+			if ok {
+				st = r.streams[r.flowIdx(from.String())]
+			}
+			r.mu.Unlock()
+			if !ok {
+				up, err = net.DialUDP("udp", nil, target)
+				if err != nil {
+					continue
+				}
+				st = &wireStream{}
+				r.mu.Lock()
+				r.flows[from.String()] = up
+				r.flowKeys = append(r.flowKeys, from.String())
+				r.flowBase = append(r.flowBase, len(r.streams))
+				r.streams = append(r.streams, st)
+				r.mu.Unlock()
+				go func(up *net.UDPConn, back *net.UDPAddr, st *wireStream) {
+					b := make([]byte, 64<<10)
+					for {
+						m, err := up.Read(b)
+						if err != nil {
+							return
+						}
+						r.mu.Lock()
+						st.s2c.Write(b[:m])
+						r.mu.Unlock()
+						_, _ = u.WriteToUDP(b[:m], back)
+					}
+				}(up, from, st)
+			}
+			r.mu.Lock()
+			st.c2s.Write(buf[:n])
+			r.mu.Unlock()
+			_, _ = up.Write(buf[:n])
+		}
+	}()
+	return u.LocalAddr().(*net.UDPAddr).Port
+}
+
+func (r *wireRelay) flowIdx(key string) int {
+	for i, k := range r.flowKeys {
+		if k == key {
+			return r.flowBase[i]
+		}
+	}
+	return -1
 }
 
 func wireNewRelay(target string) *wireRelay {
@@ -636,6 +767,12 @@ func (r *wireRelay) close() {
 	r.ln.Close()
 	r.mu.Lock()
 	for _, c := range r.conns {
+		c.Close()
+	}
+	if r.udp != nil {
+		r.udp.Close()
+	}
+	for _, c := range r.flows {
 		c.Close()
 	}
 	r.mu.Unlock()
@@ -774,7 +911,7 @@ func wireWire(kv map[string]string) string {
 		frplog.InitLogger("console", lv, 0, true)
 	}
 	tlsOn, custom, enc, mux, tokSet := wireB(kv["tls"]), wireB(kv["custom"]), wireB(kv["enc"]), wireB(kv["mux"]), wireB(kv["tok"])
-	venc, ws := wireB(kv["venc"]), wireB(kv["ws"])
+	venc, ws, quicOn := wireB(kv["venc"]), wireB(kv["ws"]), wireB(kv["q"])
 	mTok, mSk, mPwd, mHUser, mUser := wireMarker("T"), wireMarker("S"), wireMarker("P"), wireMarker("H"), wireMarker("U")
 	mPay, mVPay, mUPay := wireMarker("Y"), wireMarker("V"), wireMarker("D")
 	token := ""
@@ -786,6 +923,10 @@ func wireWire(kv map[string]string) string {
 	defer func() { s.stop(); _ = s.svr.Close() }()
 	relay := wireNewRelay(net.JoinHostPort("127.0.0.1", strconv.Itoa(s.port)))
 	defer relay.close()
+	relayUDP := 0
+	if quicOn {
+		relayUDP = relay.serveUDP(&net.UDPAddr{IP: net.IPv4(127, 0, 0, 1), Port: s.quicPort})
+	}
 	backend, bport := wireEchoBackend()
 	defer backend.Close()
 
@@ -800,6 +941,10 @@ func wireWire(kv map[string]string) string {
 	ccfg.Transport.TCPMux = &mux
 	if ws {
 		ccfg.Transport.Protocol = "websocket"
+	}
+	if quicOn {
+		ccfg.Transport.Protocol = "quic"
+		ccfg.ServerPort = relayUDP
 	}
 	// digests of the token also travel in Ping and NewWorkConn
 	ccfg.Auth.AdditionalScopes = []v1.AuthScope{v1.AuthScopeHeartBeats, v1.AuthScopeNewWorkConns}
@@ -910,8 +1055,12 @@ wait:
 		time.Sleep(20 * time.Millisecond)
 	}
 	dec := "na"
-	if !tlsOn && !mux && !ws {
+	if !tlsOn && !mux && !ws && !quicOn {
 		dec = relay.decryptControl(token, []string{mSk, mPwd, mHUser})
+	}
+	fb := relay.firstByte()
+	if quicOn && fb >= 0 && fb&0xF0 == 0xC0 {
+		fb = 0xC0 // long header, fixed bit, type Initial; the low four bits are under header protection
 	}
 	tokSeen := 0
 	if tokSet {
@@ -920,7 +1069,7 @@ wait:
 	// a datagram travels as UDPPacket{Content: base64(datagram)} — encoded, not encrypted
 	upay := wireBit(relay.contains(base64.StdEncoding.EncodeToString([]byte(mUPay))))
 	return fmt.Sprintf("up=1;fb=%d;tok=%d;sk=%d;pwd=%d;huser=%d;user=%d;pay=%d;vpay=%d;upay=%d;dec=%s",
-		relay.firstByte(), tokSeen, wireBit(relay.contains(mSk)), wireBit(relay.contains(mPwd)), wireBit(relay.contains(mHUser)),
+		fb, tokSeen, wireBit(relay.contains(mSk)), wireBit(relay.contains(mPwd)), wireBit(relay.contains(mHUser)),
 		wireBit(relay.contains(mUser)), wireBit(relay.contains(mPay)), wireBit(relay.contains(mVPay)), upay, dec)
 }
 
